@@ -105,6 +105,27 @@ def body(a, b, c):
     return snap(v) == before and ref.equal(out, ref.array(v)) and list(out) == list(encode.field_array(v))
 '''
 
+TWINS = '''
+def body(n):
+    """values that compare equal but encode differently must not influence one another: each table is
+    encoded, then its twin, then the first again; every output equals the reference bytes"""
+    pairs = [(-0.0, 0.0), (decimal.Decimal("1.00"), decimal.Decimal("1.0")), (2.0, decimal.Decimal("2")),
+             (decimal.Decimal("0.125"), 0.125), (1, True), (0, False), (1.0, 1), ("a", "a"),
+             (decimal.Decimal("-0.0"), decimal.Decimal("0")), (2.5, decimal.Decimal("2.50"))]
+    ok = True
+    for a, b in pairs:
+        ta, tb = hx.table([("k", a), ("n", n)]), hx.table([("k", b), ("n", n)])
+        ra = ref.table(ta, False, hx.single_bits, None)
+        rb = ref.table(tb, False, hx.single_bits, None)
+        o1 = hx.fix(encode.field_table(ta))
+        o2 = hx.fix(encode.field_table(tb))
+        o3 = hx.fix(encode.field_table(ta))
+        o4 = hx.fix(encode.field_array([b, a, b]))
+        ok = ok and ref.equal(o1, ra) and ref.equal(o2, rb) and list(o3) == list(o1)
+        ok = ok and ref.equal(o4, ref.array([b, a, b], False, hx.single_bits, None))
+    return ok
+'''
+
 FRAMES = '''
 def body(ch, k0, k1, a, q, durable):
     args = hx.table([(k1, a), (k0, [a])])
@@ -119,20 +140,20 @@ def body(ch, k0, k1, a, q, durable):
     tsobj = hx.dt(1700000000 + a, 5, None)          # naive timestamp assigned after construction
     p.timestamp = tsobj
     ts_before = hx.dt_parts(p.timestamp)
-    h = header.ContentHeader(0, 10, p)
+    h = header.ContentHeader(5, 10, p)                # non-zero weight must survive encoding as well
     so = commands.Connection.StartOk(args, "PLAIN", "r", "en_US")
     ok = True
     for f in (m, h, so):
         if isinstance(f, base.Frame):
             before = [(k, snap(v)) for k, v in f]
         else:
-            before = [(k, snap(v)) for k, v in f.properties if k != "timestamp"] + [("body_size", f.body_size)]
+            before = [(k, snap(v)) for k, v in f.properties if k != "timestamp"] + [("body_size", f.body_size), ("weight", f.weight)]
         o1 = frame.marshal(f, ch)
         o2 = frame.marshal(f, ch)
         if isinstance(f, base.Frame):
             after = [(k, snap(v)) for k, v in f]
         else:
-            after = [(k, snap(v)) for k, v in f.properties if k != "timestamp"] + [("body_size", f.body_size)]
+            after = [(k, snap(v)) for k, v in f.properties if k != "timestamp"] + [("body_size", f.body_size), ("weight", f.weight)]
         ok = ok and list(o1) == list(o2) and before == after
     ok = ok and m.arguments is args and so.client_properties is args and p.headers is hdrs
     ok = ok and list(ba) == [1, 2, 3] and lst == [3, 1, 2] and h.properties is p
@@ -192,6 +213,10 @@ def partitions(tier, seed):
                       bound='Queue.Declare, ContentHeader(headers with bytearray and list), Connection.StartOk: '
                             'marshal twice, attributes / identities / contents unchanged',
                       rep={'ch': 1, 'k0': 'b', 'k1': 'a', 'a': 7, 'q': 'q', 'durable': True}))
+    parts.append(Part('scalar_twins', [('n', 'int')], ['-2**15 <= n < 2**15'], TWINS, PRE, 200, family='determinism',
+                      bound='10 pairs of equal-comparing values with different encodings (signed zeros, Decimals of '
+                            'different scale, float vs Decimal, int vs bool), interleaved encodings vs reference',
+                      rep={'n': 7}))
     parts.append(Part('twin_two_keys', [('k0', 'str'), ('k1', 'str'), ('a', 'int')],
                       ['len(k0) == 1', 'len(k1) == 1', 'k0 != k1', '-2**15 <= a < 2**15'],
                       'def body(k0, k1, a):\n    return not enc_all_orders([(k0, a), (k1, a)], lambda t: t)\n',
